@@ -30,6 +30,7 @@ Inductive qcmd :=
 | QIter (s : qsrc) (p : jpath) (vals tr push : bool) (* it = find(p, s) / find_matches(p, s); push: results join the match list *)
 | QNext (it : nat)                                   (* next(it); a Match result is appended to the match list *)
 | QDrain (it cap extra : nat)                        (* next(it) until it raises or cap results, then extra more *)
+| QReiter (it : nat)                                 (* iter(it): the iterator itself, unchanged (what `for` and list() call first) *)
 | QGetMatch (s : qsrc) (p : jpath) (must tr : bool)  (* a Match result is appended to the match list *)
 | QGet (s : qsrc) (p : jpath) (d : @default) (tr : bool)
 | QEq (i j : nat)                                    (* matches[i] == matches[j], and != *)
@@ -116,6 +117,11 @@ Definition run_cmd (doc : json) (e : qenv) (c : qcmd) : otree * qenv :=
                     end in
           (ON "next" [ooutcome (i_vals it) o; oevents es],
            {| e_iters := set_nth_iter (e_iters e) k it'; e_matches := ms |})
+      end
+  | QReiter k =>
+      match nth_error (e_iters e) k with
+      | None => (skip, e)
+      | Some _ => (ON "reiter" [obool true], e)
       end
   | QDrain k cap extra =>
       match nth_error (e_iters e) k with
